@@ -339,6 +339,8 @@ def run_query_display(ctx):
     ctx.rule("DISPLAY-KW", "the Display impls of Select/Join/Insert/Update/Delete emit exactly their keyword constants; Join prints INNER for "
                            "the Inner variant and LEFT for the Left variant; a sub-select with columns, a condition or a join is bracketed")
     for fname, want in QUERY_KW.items():
+        if fname.startswith("msi::<internal::query::Join as"):
+            continue  # checked per variant below
         f = prog.fn(fname)
         S = Sym(prog, f)
         lits = []
@@ -348,38 +350,39 @@ def run_query_display(ctx):
                 lits.append(m.group(1))
         ctx.check(sorted(set(lits)) == sorted(set(want)), "DISPLAY-KW", short(fname), str(sorted(set(lits))),
                   "%s writes the literals %s, expected %s" % (short(fname), sorted(set(lits)), sorted(set(want))), f.loc(), fn=fname)
-    # Join variant -> keyword
+    # Join variant -> keyword, on the body specialised to each variant (merged arms / a keyword chosen by `matches!` read like separate arms)
+    from ..spec import specialise
     f = prog.fn("msi::<internal::query::Join as std::fmt::Display>::fmt")
     S = Sym(prog, f)
-    dom = cfg.dominators(f)
     sw = tables.first_switch(f)
     vs = tables.enum_variants(prog, "msi", "internal::query::Join")
-    if sw is None or not vs:
-        ctx.anchor_missing("DISPLAY-KW", "match in Join::fmt")
+    if sw is None or not vs or S.val(f.blocks[sw]["term"]["discr"]) != "discr(*p1)":
+        ctx.anchor_missing("DISPLAY-KW", "match on self in Join::fmt")
         return
-    t = f.blocks[sw]["term"]
-    for v, tgt in t["cases"]:
-        name = vs.get(v)
-        blks = arm_blocks(f, dom, tgt)
+    all_lits = set()
+    for v, name in sorted(vs.items()):
+        g = specialise(prog, f, "discr(*p1)", v)
+        Sg = Sym(prog, g)
+        domg = cfg.dominators(g)
         lits = []
-        for b, tt in calls(prog, f, r"write_str$"):
-            if b in blks:
-                m = re.search(r"s:'(.*)'$", S.val(tt["args"][1]))
-                if m:
-                    lits.append(m.group(1))
+        for b, tt in calls(prog, g, r"write_str$"):
+            m = re.search(r"s:'(.*)'$", Sg.val(tt["args"][1]))
+            if m:
+                lits.append(m.group(1))
+        all_lits |= set(lits)
         if name in ("Inner", "Left"):
             # the three operands are printed, in the order left, right, condition, with the join keyword between the first two and ON before the third
             pos = {}
-            for b, tt in f.calls():
-                if b not in blks or re.search(r"Try>::branch$|FromResidual|::deref$|::as_ref$|::borrow$", cname(prog, tt)):
+            for b, tt in g.calls():
+                if re.search(r"Try>?::branch$|FromResidual|::deref$|::as_ref$|::borrow$", cname(prog, tt)):
                     continue
-                txt = " ".join(S.val(a) for a in tt["args"])
+                txt = " ".join(Sg.val(a) for a in tt["args"])
                 for k in (0, 1, 2):
                     if re.search(r"p1@%s\.%d\b" % (name, k), txt):
-                        pos.setdefault(k, len(dom[b]))
+                        pos.setdefault(k, len(domg[b]))
                 m = re.search(r"s:'( (?:INNER|LEFT) JOIN | ON )'", txt)
                 if m:
-                    pos.setdefault(m.group(1).strip(), len(dom[b]))
+                    pos.setdefault(m.group(1).strip(), len(domg[b]))
             kw = "INNER JOIN" if name == "Inner" else "LEFT JOIN"
             seq = [pos.get(0), pos.get(kw), pos.get(1), pos.get("ON"), pos.get(2)]
             ctx.check(None not in seq and seq == sorted(seq) and len(set(seq)) == 5, "DISPLAY-KW", "Join::%s prints left, keyword, right, ON, condition in this order" % name, str(seq),
@@ -391,6 +394,9 @@ def run_query_display(ctx):
         if name == "Left":
             ctx.check(" LEFT JOIN " in lits and " INNER JOIN " not in lits and " ON " in lits, "DISPLAY-KW", "Join::Left keyword", str(lits),
                       "Join::Left prints %s" % lits, f.loc(), fn=f.name)
+    want = QUERY_KW[f.name]
+    ctx.check(sorted(all_lits) == sorted(set(want)), "DISPLAY-KW", short(f.name), str(sorted(all_lits)),
+              "%s writes the literals %s, expected %s" % (short(f.name), sorted(all_lits), sorted(set(want))), f.loc(), fn=f.name)
     # format_for_join: the unbracketed return is guarded by column_names.is_empty() && condition.is_none() && Join::Table
     f = prog.fn("msi::internal::query::Select::format_for_join")
     S = Sym(prog, f)
